@@ -8,7 +8,8 @@ import NmVerif.Arr
                        `i < 0 ⇒ l[len(l) + i]` (one Python-style wrap), else `l[i]`; `none` = access outside the container
                        (std::vector::at throws / UB) — never happens on accepted arguments.
     `setPy l i v`      `at(l, i) = v` with the same index rule
-    `mapAt f axis i d` the loop `ret[i] = (i == axis) ? f(d[i]) : d[i]` (unsigned comparison)
+    `mapAt f axis i d` the loop `ret[i] = (i == axis) ? f(d[i]) : d[i]`
+    `normalizeAxis1`   index::normalize_axis for one axis;  `normAxis` the unchecked `a < 0 ? a + dim : a`
     `reshapeIdx`       index map of `view::reshape` (`compute_indices(compute_offset(d, dst_strides), src_shape)`)
   Core Lean only.
 -/
@@ -34,9 +35,18 @@ def setPy {α : Type} (l : List α) (i : Int) (v : α) : List α :=
   | some p => l.set p v
   | none => l
 
+/-- `index::normalize_axis(axis, ndim)` for one axis: `none` unless `-ndim ≤ axis < ndim`; negative ⇒ `ndim + axis` -/
+def normalizeAxis1 (axis : Int) (dim : Nat) : Option Nat :=
+  if axis < -(dim : Int) ∨ (dim : Int) ≤ axis then none
+  else if axis < 0 then some ((dim : Int) + axis).toNat else some axis.toNat
+
+/-- the local `axis` lambda of the repaired index functions (take, repeat, concatenate, compress):
+    `a = (nm_index_t) axis; a < 0 ? a + len(shape) : a` — a negative axis counts from the last axis; no range check -/
+def normAxis (axis : Int) (dim : Nat) : Int := if axis < 0 then axis + (dim : Int) else axis
+
 /-- the recurring loop `for i < len(d): ret[i] = ((common_t) i == (common_t) axis) ? f(d[i]) : d[i]`.
-    The comparison is made in an unsigned type: a negative `axis` (≥ 2^64 − 2^31 after conversion) equals no loop
-    counter, a non-negative one equals `i` iff it is the same number — i.e. `(i : Int) = axis`.
+    `axis` is the (already normalised) signed axis; the comparison is made in the promoted index type, which for a loop
+    counter and a small signed value means: equal iff the same number — i.e. `(i : Int) = axis`.
     `i` is the position of the head of the list. -/
 def mapAt (f : Nat → Nat) (axis : Int) : Nat → List Nat → List Nat
   | _, [] => []
